@@ -55,6 +55,11 @@ CLAIMED["C14"] = ("ovf-codec", "exploration",
   "decode(encode(a) ++ tail) == (a, tail) for generated representable addresses in the SOCKS5-style and VMess-style encodings (bytes compared with an independent encoder; length helpers must agree). Addresses obtained from the real SOCKS5 / SOCKS5-UDP decoders and the real HTTP authority extraction for names of 0..1024 bytes are pushed through every real client codec's first encode and the real server decoder: identical address and payload, or refusal before any byte is produced. Exploration.",
   "Trusted: reference address encoders (30 lines).", "DESIGN.md 5/C14")
 
+CLAIMED["C01"] = ("ovf-system", "exploration",
+  "end-to-end property testing of the real client and server binaries over loopback: generated traffic scripts (proptest) against a byte-exact keystream oracle at a scripted application and a scripted target; every README (protocol, cipher, transport) combination in every run",
+  "For each case a fresh octo-squirrel-server and octo-squirrel-client (release build of /repo's working tree, hooks off) are started with a generated configuration (protocol, cipher, transport tcp/tls/ws/wss/quic, user table, worker threads). 1..6 (quick) / 1..24 (thorough) concurrent flows each complete a SOCKS5-IPv4 / SOCKS5-domain / HTTP CONNECT / absolute-URI HTTP handshake and run a generated script of application writes, target writes, pauses and syncs (1 byte .. 256 KiB quick, 4 MiB thorough, protocol edge sizes), optionally through a tap that re-cuts the client-server byte stream. Oracle: the flow's own target port is dialled exactly once; every byte received at either end equals the position-dependent keystream the other end wrote (checked on the fly), nothing extra; when the target answers and closes the application reads the whole answer and then end-of-stream; when the application closes the target reads everything and then end-of-stream; both processes alive without a panic. All 50 README combinations are exercised in every run (sub-check matrix), plus generated combinations. Exploration of scripts and of the interleavings the machine produces.",
+  "Trusted: the kernel's loopback TCP, the harness's reader threads and keystream. Deadline-decided failures (20 s) are re-run twice on fresh clusters before being reported; wrong bytes, extra dials and dead processes are reported at once.", "DESIGN.md 5/C01")
+
 PENDING = {}
 
 def main():
